@@ -28,7 +28,18 @@ notes = os.path.join(out, "notes%s.md" % idx)
 tmp = tempfile.mkdtemp(prefix="seed_", dir="/tmp")
 wt = os.path.join(tmp, "repo")
 report = {"property": prop, "patch": patch}
-subprocess.check_call(["git", "-C", "/repo", "worktree", "add", "-q", "--detach", wt, "HEAD"])
+# the change was written against the commit the agent's worktree was at; if it no longer applies to HEAD (a later
+# fix touched the same lines) it is evaluated on that commit
+base = "HEAD"
+agent_wt = os.path.dirname(os.path.abspath(out))
+if "--base" in sys.argv:
+    base = sys.argv[sys.argv.index("--base") + 1]
+elif subprocess.run(["git", "-C", "/repo", "apply", "--check", patch], capture_output=True).returncode != 0:
+    r = subprocess.run(["git", "-C", agent_wt, "rev-parse", "HEAD"], capture_output=True, text=True)
+    if r.returncode == 0:
+        base = r.stdout.strip()
+report["base_commit"] = base if base != "HEAD" else subprocess.run(["git", "-C", "/repo", "rev-parse", "--short", "HEAD"], capture_output=True, text=True).stdout.strip()
+subprocess.check_call(["git", "-C", "/repo", "worktree", "add", "-q", "--detach", wt, base])
 try:
     env = dict(os.environ, PYTHONPATH=wt, PYTHONDONTWRITEBYTECODE="1")
     shutil.copy(demo, os.path.join(tmp, "demo.py"))
@@ -69,7 +80,7 @@ try:
                 "what_was_run": {"pinned test suite with the change": report["tests"], "demo on unchanged tree (exit)": rc0,
                                  "demo with the change (exit)": rc1, "demo output": o1[-300:],
                                  "checks with VERIF_REPO=<scratch worktree with the change>": report["checks"]},
-                "confirmed": report["confirmed"],
+                "confirmed": report["confirmed"], "base_commit": report["base_commit"],
                 "detected_by": [p for p, r in report["checks"].items() if r["exit"] == 1]}
         json.dump(meta, open(os.path.join(d, "meta.json"), "w"), indent=1)
 finally:
